@@ -39,4 +39,4 @@ def main(run: common.Run):
 
 
 if __name__ == "__main__":
-    common.guarded_main("C03", "proof", main)
+    common.guarded_main("C03", "proof", main, generic_replay=True)
